@@ -38,6 +38,7 @@ type Stream interface {
 	GetObservers() *wrapper.ConcurrentSwissMap[uint16, couchbase.Observer]
 	GetMetric() (*Metric, int32)
 	UnmarkDirtyOffsets()
+	MarkDirtyOffsets(dirtyOffsets map[uint16]bool)
 	GetCheckpointMetric() *CheckpointMetric
 	IsOpen() bool
 }
@@ -71,6 +72,7 @@ type stream struct {
 	streamEndNotSupportedData    *streamEndNotSupportedData
 	tracerComponent              *tracing.TracerComponent
 	rebalanceLock                sync.Mutex
+	dirtyLock                    sync.Mutex
 	activeStreams                atomic.Int32
 	streamFinishedWithCloseCh    bool
 	streamFinishedWithEndEventCh bool
@@ -96,6 +98,7 @@ func (s *stream) setOffset(vbID uint16, offset *models.Offset, dirty bool) {
 			return
 		}
 
+		s.dirtyLock.Lock()
 		s.dirtyOffsets.StoreIf(vbID, func(p bool, f bool) (v bool, s bool) {
 			if !f || (f && !p) {
 				return true, true
@@ -104,6 +107,7 @@ func (s *stream) setOffset(vbID uint16, offset *models.Offset, dirty bool) {
 			return p, false
 		})
 		s.anyDirtyOffset = true
+		s.dirtyLock.Unlock()
 	} else {
 		logger.Log.Warn("vbID: %v not belong our vbID range", vbID)
 	}
@@ -128,7 +132,6 @@ func (s *stream) waitAndForward(
 		Event:  payload,
 		Ack: func() {
 			s.setOffset(vbID, offset, true)
-			s.anyDirtyOffset = true
 		},
 		ListenerTracerComponent: s.tracerComponent.NewListenerTracerComponent(spanCtx),
 	}
@@ -451,6 +454,9 @@ func (s *stream) Close(closeWithCancel bool) {
 }
 
 func (s *stream) GetOffsets() (*wrapper.ConcurrentSwissMap[uint16, *models.Offset], *wrapper.ConcurrentSwissMap[uint16, bool], bool) {
+	s.dirtyLock.Lock()
+	defer s.dirtyLock.Unlock()
+
 	return s.offsets, s.dirtyOffsets, s.anyDirtyOffset
 }
 
@@ -467,8 +473,24 @@ func (s *stream) GetCheckpointMetric() *CheckpointMetric {
 }
 
 func (s *stream) UnmarkDirtyOffsets() {
+	s.dirtyLock.Lock()
+	defer s.dirtyLock.Unlock()
+
 	s.anyDirtyOffset = false
 	s.dirtyOffsets = wrapper.CreateConcurrentSwissMap[uint16, bool](1024)
+}
+
+// MarkDirtyOffsets puts back the dirty marks of a save that failed.
+func (s *stream) MarkDirtyOffsets(dirtyOffsets map[uint16]bool) {
+	s.dirtyLock.Lock()
+	defer s.dirtyLock.Unlock()
+
+	for vbID, dirty := range dirtyOffsets {
+		if dirty && s.vbIDRange.In(vbID) {
+			s.dirtyOffsets.Store(vbID, true)
+			s.anyDirtyOffset = true
+		}
+	}
 }
 
 func NewStream(client couchbase.Client,
